@@ -13,7 +13,7 @@ import json
 import re
 
 import runner
-from common import chunks, crash_signature, panic_signature, rng_for
+from common import chunks, crash_signature, panic_signature, rng_for, shape_decoy_scope
 
 LEVEL = "exploration"
 
@@ -34,7 +34,7 @@ TYPES = [("number", "FeelType(Number)"), ("string", "FeelType(String)"), ("boole
          ("function<number, string>->boolean", "FunctionType(ParameterTypes([FeelType(Number), FeelType(String)]), FeelType(Boolean))"), ("list<list<string>>", "ListType(ListType(FeelType(String)))")]
 NUMS = [("1", 'Numeric("1", "")'), ("42", 'Numeric("42", "")'), ("12.50", 'Numeric("12", "50")'), (".5", 'Numeric("0", "5")'), ("0.0", 'Numeric("0", "0")'), ("007", 'Numeric("007", "")'),
         ("1234567890123456789012345678901234", 'Numeric("1234567890123456789012345678901234", "")'), ("0.000001", 'Numeric("0", "000001")')]
-STRS = ["", "x", "hello world", "a+b", "(", "if then else", "1 in 2", "ü", "// no comment", "/* no comment */"]
+STRS = ["", "x", "hello world", "a+b", "(", "if then else", "1 in 2", "ü", "// no comment", "/* no comment */", "p\u200bq", "\ufeffx", "a\u2060b", "t\u00a0u\u3000v"]
 
 FORMS = ["name", "num", "str", "bool", "null", "neg", "or", "and", "=", "!=", "<", "<=", ">", ">=", "between", "in", "in_tests", "+", "-", "*", "/", "**", "instance", "path", "filter", "call", "callnamed",
          "if", "for", "forrange", "some", "every", "function", "list", "context", "range"]
@@ -310,7 +310,10 @@ def join(toks, rng=None):
                 pass
             out.append(tok)
         return "".join(out)
-    seps = [" ", "  ", "\t", "\n", "\r\n", " \n ", " ", " ", " ", " ", "　", " /* c */ ", " // c\n", "\n// c\n", " /**/ ", " /* * / */ ",
+    # every character of the FEEL white space class that is not ALSO a FEEL name character (U+1680, U+180E and U+FEFF are in
+    # both classes of the grammar: which one wins between two words is not settled, so they are not used as sole separators)
+    seps = [" ", "  ", "\t", "\n", "\r\n", " \n ", "\u00a0", "\u0085", "\u2000", "\u2003", "\u2009", "\u200a", "\u200b", "\u2028", "\u2029", "\u202f", "\u205f", "\u3000", "\u000b", "\u000c",
+            "\u200b", "\u00a0", " /* c */ ", " // c\n", "\n// c\n", " /**/ ", " /* * / */ ",
             # comment bodies made of the comment delimiters' own characters
             " /*/ c */ ", " /*// c */ ", " /*/*/ ", " /***/ ", " /** c **/ ", " /* /* c */ ", " /* \" */ ", " /*\n*/ ", " // */ c\n", " // /* c\n", " //\n", " ///\n", " /* // */ "]
     out = []
@@ -482,7 +485,17 @@ def between_operand_defect(text):
 QN1 = re.compile(r'QualifiedName\(\[QualifiedNameSegment\(Name\("([^"]*)"\)\)\]\)')
 
 
+_FEEL_WS = re.compile("[\u0085\u00a0\u2000-\u200b\u2028\u2029\u202f\u205f\u3000\u000b\u000c]")
+_DBG_ESC = re.compile(r"(?<!\\)((?:\\\\)*)\\u\{([0-9a-f]{1,6})\}")
+
+
+def undebug(got):
+    """Rust's Debug prints some characters of a string as \\u{..}: back to the characters themselves"""
+    return _DBG_ESC.sub(lambda m: m.group(1) + chr(int(m.group(2), 16)), got)
+
+
 def classify_rejected(text):
+    text = _FEEL_WS.sub(" ", text)
     for name, rx in FEATURES:
         if rx.search(text):
             return name
@@ -562,7 +575,7 @@ def run(rep, tier, seed):
             texts.append((join(toks2), "removed", ti, want))
     cases, meta = [], []
     for group in chunks(texts, 150):
-        cases.append({"op": "parse", "entry": "expr", "scope": scope, "texts": [g[0] for g in group]})
+        cases.append({"op": "parse", "entry": "expr", "scope": scope, "preparse_scope": shape_decoy_scope(scope), "texts": [g[0] for g in group]})
         meta.append(group)
     results, _ = runner.run_cases("dbg", cases, rep.workdir, label="parse")
     kinds = {}
@@ -578,7 +591,7 @@ def run(rep, tier, seed):
             rep.count()
             if isinstance(got, str):
                 # a single-segment qualified name (produced for range end points in some contexts) denotes the same name
-                got = QN1.sub(r'Name(Name("\1"))', got)
+                got = undebug(QN1.sub(r'Name(Name("\1"))', got))
             kinds[kind] = kinds.get(kind, 0) + 1
             f1, _p = set(), set()
             forms_in(trees[ti], f1, _p)
